@@ -75,12 +75,13 @@ def tab(m, stream, t):
 # ----------------------------------------------------------------------------------------------------------------
 # matrix families
 # ----------------------------------------------------------------------------------------------------------------
-SYM_FAMS = ('spd_r', 'hpd_c', 'nd_r', 'nd_c', 'symi_r', 'hermi_c', 'csym_c', 'symzd_r', 'hermzd_c')
+SYM_FAMS = ('spd_r', 'hpd_c', 'nd_r', 'nd_c', 'symi_r', 'hermi_c', 'symip_r', 'hermip_c', 'csym_c', 'symzd_r',
+            'hermzd_c')
 GEN_FAMS = ('gen_r', 'gen_c')
 TRI_FAMS = ('lower_r', 'lower_c', 'upper_r', 'upper_c')
 DIAG_FAMS = ('diag_r', 'diag_c')
-HERM_FAMS = ('spd_r', 'hpd_c', 'nd_r', 'nd_c', 'symi_r', 'hermi_c', 'symzd_r', 'hermzd_c')
-REALSYM_FAMS = ('spd_r', 'nd_r', 'symi_r', 'symzd_r')
+HERM_FAMS = ('spd_r', 'hpd_c', 'nd_r', 'nd_c', 'symi_r', 'hermi_c', 'symip_r', 'hermip_c', 'symzd_r', 'hermzd_c')
+REALSYM_FAMS = ('spd_r', 'nd_r', 'symi_r', 'symip_r', 'symzd_r')
 PD_FAMS = ('spd_r', 'hpd_c')
 FE_FAMS = ('fe_elast_r', 'fe_elast_c', 'fe_poisson_r', 'fe_poisson_c')
 
@@ -118,6 +119,12 @@ def _full(fam, n, t):
         return R + R.T + np.diag(alt)
     if fam == 'hermi_c':
         return C + C.conj().T + np.diag(alt)
+    if fam == 'symip_r':        # positive diagonal, yet indefinite once off-diagonal entries are present
+        M = 1.5 * (R + R.T)
+        return M - np.diag(np.diag(M)) + np.diag(1.0 + 0.5 * np.abs(tab(n, 5, t)))
+    if fam == 'hermip_c':
+        M = 1.5 * (C + C.conj().T)
+        return M - np.diag(np.diag(M)) + np.diag(1.0 + 0.5 * np.abs(tab(n, 5, t)))
     if fam == 'csym_c':
         return C + C.T + 2 * np.eye(n)
     if fam == 'symzd_r':
@@ -233,7 +240,7 @@ def admissible(case, A):
 # ----------------------------------------------------------------------------------------------------------------
 # right-hand sides and initial guesses
 # ----------------------------------------------------------------------------------------------------------------
-RHS_REAL = ['vec', 'col', 'blk3', 'blkdep', 'blkz', 'zero']
+RHS_REAL = ['vec', 'col', 'blk3', 'blk3f', 'blkdep', 'blkz', 'zero']
 RHS_CPLX = ['cvec', 'ccol', 'cblk3', 'cblkdep', 'cblkz']
 RHS_ALL = RHS_REAL + RHS_CPLX
 X0_ALL = ['none', 'zero', 'exact', 'pert']
@@ -244,12 +251,18 @@ def make_rhs(name, n, t):
     z = np.zeros(n)
     c1 = b1 + 1j * b2
     out = {
-        'vec': b1, 'col': b1.reshape(n, 1), 'blk3': np.stack([b1, b2, b3], 1), 'blkdep': np.stack([b1, 2 * b1, b2], 1),
+        'vec': b1, 'col': b1.reshape(n, 1), 'blk3': np.stack([b1, b2, b3], 1), 'blk3f': np.stack([b3, b1, b2], 1),
+        'blkdep': np.stack([b1, 2 * b1, b2], 1),
         'blkz': np.stack([b1, z, b2], 1), 'zero': z,
         'cvec': c1, 'ccol': c1.reshape(n, 1), 'cblk3': np.stack([c1, b2 - 1j * b3, b3 + 0j], 1),
         'cblkdep': np.stack([c1, b2 + 0j, 1j * b1], 1), 'cblkz': np.stack([c1, z + 0j], 1),
     }[name]
     return np.ascontiguousarray(out)
+
+
+def layout(b, name):
+    """'blk3f' is the (n,3) block in Fortran (column-major) memory order"""
+    return np.asfortranarray(b) if name.endswith('f') else b
 
 
 def has_zero_column(b):
@@ -288,6 +301,7 @@ SOLVERS = {
     'DenseLDL/False': (REALSYM_FAMS + ('csym_c', 'diag_r', 'diag_c'), ('dense',)),
     'SparseLU': (ALL_GEN, ('csc', 'csr')),
     'auto': (ALL_GEN, ('dense', 'csc', 'csr')),
+    'auto/flags': (ALL_GEN, ('dense', 'csc', 'csr')),       # class flags handed over with their (reference) values
 }
 PRECS_PLAIN = ['id', 'jac0.5', 'jac1', 'sor1', 'sor1.5', 'ilu']
 PRECS_MG = ['mgV', 'mgW', 'mgV/jac/1', 'mgV/sor/2', 'mgW/sor/1', 'mg2V', 'mg2W/sor/2']
@@ -472,6 +486,9 @@ def execute(case):
                 if case['solver'] == 'auto':
                     s = auto_determine_solver(Ain)
                     s.update(Ain)
+                elif case['solver'] == 'auto/flags':
+                    s = auto_determine_solver(Ain, isdiagonal=pA['diag'], ishermitian=pA['herm'], issymmetric=pA['sym'])
+                    s.update(Ain)
                 elif case.get('ctor', 'update') == 'init':
                     s = make_solver(case, Ain)
                 else:
@@ -521,7 +538,8 @@ def execute(case):
                             continue
                         judged = False
                         tagx = 'real_x0_complex_problem'
-                    b_in = b.copy()
+                    b = layout(b, rn)
+                    b_in = b.copy(order='K')
                     x0 = make_x0(x0k, Aref, b, tr, t)
                     x0_in = None if x0 is None else x0.copy()
                     zc = has_zero_column(b)
@@ -649,7 +667,7 @@ def direct_cases(t, sizes, pattern_max_n, ctor='update', solvers=None):
                 continue
             if fam not in fams:
                 continue
-            if ctor == 'init' and name == 'auto':
+            if ctor == 'init' and name.startswith('auto'):
                 continue
             for st in storages:
                 yield {'solver': name, 'fam': fam, 'n': n, 'pat': pat, 'storage': st, 'table': t, 'ctor': ctor,
